@@ -199,12 +199,15 @@ struct C08 : Property
 			    "[{\"op\":\"remove\",\"path\":\"/foo/0\"},{\"op\":\"add\",\"path\":\"/foo/-\",\"value\":[1,2]}]",
 			    "[{\"op\":\"replace\",\"path\":\"/o/y\",\"value\":42},{\"op\":\"test\",\"path\":\"/o/y\",\"value\":42}]",
 			    "[{\"op\":\"move\",\"from\":\"/o/y\",\"path\":\"/foo/1\"}]",
-			    "[{\"op\":\"copy\",\"from\":\"/o\",\"path\":\"/o2\"},{\"op\":\"copy\",\"from\":\"/foo/0\",\"path\":\"/foo/-\"}]",
+			    "[{\"op\":\"copy\",\"from\":\"/o\",\"path\":\"/c2\"},{\"op\":\"copy\",\"from\":\"/foo/0\",\"path\":\"/foo/-\"}]", // (not \"/o2\": json-c refuses any path that has 'from' as a string prefix)
 			    "[{\"op\":\"move\",\"from\":\"/foo/0\",\"path\":\"/foo/1\"},{\"op\":\"add\",\"path\":\"/a/b\",\"value\":1}]",
 			    "[{\"op\":\"add\",\"path\":\"\",\"value\":{\"whole\":\"new\"}}]",
 			    "[{\"op\":\"test\",\"path\":\"/foo/1\",\"value\":\"nope\"}]",
-			    "[{\"op\":\"add\",\"path\":\"/k1\",\"value\":1},{\"op\":\"add\",\"path\":\"/k2\",\"value\":2},{\"op\":\"add\",\"path\":\"/k3\",\"value\":3},{\"op\":\"remove\",\"path\":\"/k2\"}]"};
-			p.ops.push_back(mk("s_doc", {}, std::string(patches[r.below(10)]) + std::string(1, '\0')));
+			    "[{\"op\":\"add\",\"path\":\"/k1\",\"value\":1},{\"op\":\"add\",\"path\":\"/k2\",\"value\":2},{\"op\":\"add\",\"path\":\"/k3\",\"value\":3},{\"op\":\"remove\",\"path\":\"/k2\"}]",
+			    "[{\"op\":\"copy\",\"from\":\"/o/y\",\"path\":\"/foo/9\"}]",
+			    "[{\"op\":\"move\",\"from\":\"/o/y\",\"path\":\"/n/z\"}]",
+			    "[{\"op\":\"copy\",\"from\":\"/foo\",\"path\":\"/o/y/z/1\"},{\"op\":\"move\",\"from\":\"/n\",\"path\":\"/o/m\"}]"};
+			p.ops.push_back(mk("s_doc", {}, std::string(patches[r.below(13)]) + std::string(1, '\0')));
 			p.ops.push_back(mk("t_patch", {0, 1, (int64_t)r.below(2)}));
 			break;
 		}
